@@ -173,6 +173,7 @@ func (r *funcResultsResolver) resultsFromAst(vs visits, funcType *ast.FuncType, 
 }
 
 func (r *funcResultsResolver) resultsFromAstAt(vs visits, at int, funcType *ast.FuncType, body *ast.BlockStmt) iter.Seq[Result] {
+	verifStep("resultsFromAstAt")
 	if funcType == nil || body == nil {
 		return func(yield func(Result) bool) {
 		}
